@@ -38,7 +38,7 @@ def _wrap(kind, v):
   return fam.wrap(kind, v)
 
 
-def _graph(n, targets, w, partial, share, twin, lv, make_node, wrapf):
+def _graph(n, targets, w, partial, share, twin, lv, make_node, wrapf, lw=False):
   """Builds either the configuration or its mirror (expected built graph) from the same vector."""
   nodes = []
   cache = {}
@@ -53,6 +53,14 @@ def _graph(n, targets, w, partial, share, twin, lv, make_node, wrapf):
           vals.append(cache[t])
         else:
           vals.append(wrapf(w, nodes[t]))
+      elif lw and w:
+        # leaf-only container (holds no Buildable at any depth); with `share` both slots hold one object
+        if share:
+          if ('leaf', i) not in cache:
+            cache[('leaf', i)] = wrapf(w, lv + 10 * i)
+          vals.append(cache[('leaf', i)])
+        else:
+          vals.append(wrapf(w, lv + 10 * i + s))
       else:
         vals.append(lv + 10 * i + s)
     nodes.append(make_node(i, partial[i], vals[0], vals[1]))
@@ -74,7 +82,7 @@ def _canon_box(x):
   return canon(x)
 
 
-def c02_build(n: int, w: int, share: bool, twin: bool, p0: bool, p1: bool, p2: bool, lv: int,
+def c02_build(n: int, w: int, share: bool, twin: bool, lw: bool, bare: bool, p0: bool, p1: bool, p2: bool, lv: int,
               t1x: int, t1y: int, t2x: int, t2y: int, t3x: int, t3y: int) -> bool:
   """
   require: 3 <= n <= 4 and 0 <= w <= 6
@@ -93,28 +101,35 @@ def c02_build(n: int, w: int, share: bool, twin: bool, p0: bool, p1: bool, p2: b
   targets = [(-1, -1), (t1x, t1y), (t2x, t2y), (t3x, t3y)][:n]
   partial = [p0, p1, p2, False][:n]
   partial[n - 1] = False
-  nodes = _graph(n, targets, w, partial, share, twin, lv, _cfg_node, _wrap)
+  nodes = _graph(n, targets, w, partial, share, twin, lv, _cfg_node, _wrap, lw)
   root = nodes[-1]
   extra_twin = None
   if twin and 0 <= targets[n - 1][0] < n - 1:
     # an equal-but-distinct copy of the node the root's x slot points to, placed in a third argument
     extra_twin = copy.deepcopy(nodes[targets[n - 1][0]])
     root.z = extra_twin
+  elif bare:
+    # argument-less Partials: two equal-but-distinct instances, the first referenced twice, and an empty list twice
+    bp, bp2, el = fdl.Partial(fam.g5), fdl.Partial(fam.g5), []
+    root.z = [bp, bp2, bp, el, [], el]
   sigs.reset_log()
   built = fdl.build(root)
   log1 = list(sigs.LOG)
   # ---- expected
   sigs.reset_log()
-  mirror = _graph(n, targets, w, partial, share, twin, lv, _mirror_node, _wrap)
+  mirror = _graph(n, targets, w, partial, share, twin, lv, _mirror_node, _wrap, lw)
   exp = mirror[-1]
   reach = fam.reachable(n, targets)
   if extra_twin is not None:
     t = targets[n - 1][0]
     # the twin subgraph is a deep copy: build an independent mirror of it
-    sub = _graph(t + 1, targets[:t + 1], w, partial[:t + 1], share, False, lv, _mirror_node, _wrap)
+    sub = _graph(t + 1, targets[:t + 1], w, partial[:t + 1], share, False, lv, _mirror_node, _wrap, lw)
     exp = sigs.Rec(exp.name, exp.pos, (), (sub[-1],), {})
+  elif bare:
+    mp, mp2, ml = functools.partial(fam.g5), functools.partial(fam.g5), []
+    exp = sigs.Rec(exp.name, exp.pos, (), ([mp, mp2, mp, ml, [], ml],), {})
   sigs.reset_log()
-  note('c02', n, w, share, twin, tuple(partial), tuple(targets), tuple(nm for nm, _ in log1))
+  note('c02', n, w, share, twin, lw, bare, tuple(partial), tuple(targets), tuple(nm for nm, _ in log1))
   # 1. invocation log: every reachable Config node exactly once (twins add their own invocations)
   names = [nm for nm, _ in log1]
   expect_names = sorted(f'g{i}' for i in reach if not partial[i])
@@ -143,6 +158,11 @@ def c02_build(n: int, w: int, share: bool, twin: bool, p0: bool, p1: bool, p2: b
       return False
   if canon(built2) != canon(exp):
     return False
+  # 4. nor does a built graph share a mutable object with the configuration it was built from
+  idc = mutable_ids(root, include_internal=False)
+  for k in ids1:
+    if k in idc:
+      return False
   return True
 
 
@@ -161,7 +181,7 @@ def obligations(tier, seed):
   for w, sh, tw in plan4:
     for ks in kinds4:
       for t3x in (-1, 0, 1, 2):
-        fix = dict(n=4, w=w, share=sh, twin=tw, p0=ks[0], p1=ks[1], p2=ks[2], t3x=t3x)
+        fix = dict(n=4, w=w, share=sh, twin=tw, lw=bool((w + t3x) % 2), bare=bool(t3x % 2) and not tw, p0=ks[0], p1=ks[1], p2=ks[2], t3x=t3x)
         cubes.append(Cube(f'n4_w{w}_s{int(sh)}_t{int(tw)}_k{"".join(str(int(k)) for k in ks)}_x{t3x}', [], fix,
                           est=144))
   for w in range(7):
@@ -172,10 +192,13 @@ def obligations(tier, seed):
         for ks in allk:
           if ks[2]:
             continue   # node 2 is the root when n == 3
-          fix = dict(n=3, w=w, share=sh, twin=tw, p0=ks[0], p1=ks[1], p2=False, t3x=-1, t3y=-1)
-          cubes.append(Cube(f'n3_w{w}_s{int(sh)}_t{int(tw)}_k{"".join(str(int(k)) for k in ks)}', [], fix, est=36))
-  smoke = dict(n=4, w=1, share=True, twin=True, p0=False, p1=True, p2=False, lv=5, t1x=0, t1y=-1, t2x=1, t2y=0,
+          for lw in ((False, True) if w else (False,)):
+            fix = dict(n=3, w=w, share=sh, twin=tw, lw=lw, bare=not tw and (lw or not w), p0=ks[0], p1=ks[1], p2=False, t3x=-1, t3y=-1)
+            cubes.append(Cube(f'n3_w{w}_s{int(sh)}_t{int(tw)}_l{int(lw)}_k{"".join(str(int(k)) for k in ks)}', [], fix, est=36))
+  smoke = dict(n=4, w=1, share=True, twin=True, lw=True, bare=False, p0=False, p1=True, p2=False, lv=5, t1x=0, t1y=-1, t2x=1, t2y=0,
                t3x=2, t3y=0)
   return [Obligation('c02_build', c02_build, cubes, timeout=t, path_timeout=30, smoke=smoke,
                      extra_smokes=[dict(smoke, w=6, n=3, t3x=-1, t3y=-1, t2x=0, t2y=0),
-                                   dict(smoke, w=0, share=False, t3x=0, t3y=0)])]
+                                   dict(smoke, w=0, share=False, t3x=0, t3y=0),
+                                   dict(smoke, w=3, twin=False, bare=True, t2x=-1, t2y=-1, t3y=-1),
+                                   dict(smoke, w=5, twin=False, bare=True, share=False, t1x=-1, t2y=-1)])]
